@@ -1,8 +1,8 @@
-"""C01 -- returned values satisfy every active hard constraint and their declared type (E1 translation validation)."""
+"""C02 -- SolveFailure is raised exactly when the hard constraints are unsatisfiable (E1)."""
 from vf.common import Check, assert_repo_import, tier, seed
 from vf import gen, e1run
 
-KINDS = ("under_constrained", "returned_values_violate", "out_of_type", "trace_t1", "trace_t2", "read_model", "unmapped_var")
+KINDS = ("other_exception", "spurious_failure", "missed_failure", "over_constrained")
 
 
 def canaries(chk):
@@ -30,7 +30,7 @@ def canaries(chk):
 
 def main():
     assert_repo_import()
-    chk = Check("C01", "translation_validation",
+    chk = Check("C02", "translation_validation",
                 explanation="translation validation of the real constraint lowering: each program of the enumerated families is run on "
                             "the real pyvsc with a z3-mirrored Boolector; z3 decides, for ALL values of the random fields, that the hard "
                             "formula the library asserted implies the reference (SystemVerilog) meaning of every active constraint and "
@@ -50,7 +50,7 @@ def main():
               "rand-set merging statements, call kinds randomize / randomize_with / vsc.randomize",
               "seeded random programs: %d (depth <= 2 expressions, <= 4 statements, <= 5 fields)" % (1500 if t == "thorough" else 150))
     canaries(chk)
-    specs = gen.c01_programs(t, seed())
+    specs = gen.c02_programs(t, seed())
     chk.extra["rule"] = "one evaluation = one randomize call decided by Q1/Q2/Q3/Q5; distinct = distinct (program, call position)"
     e1run.run_specs(chk, specs, KINDS, sig_fn=lambda spec, f: {"cond_class": spec["cond_class"]} if "cond_class" in spec else {})
     chk.finish()
